@@ -28,7 +28,7 @@ HARNESS = ["input/verif_script_test.go"]
 WARM = [{"pkg": "input", "files": HARNESS}]
 IMPORTS = ("From Coq Require Import List NArith ZArith Bool.\nImport ListNotations.\n"
            "From LV Require Import Script.Interp Script.Parse Script.Witness "
-           "Gen.GenScripts Script.Spend Script.Exec.\nLocal Open Scope N_scope.\n")
+           "Gen.GenScripts Script.Spend Script.Exec.\n")
 EXTRA_TRUSTED = [
     "script layer: sha256, ripemd160 (OP_HASH160 = ripemd160 o sha256) and the signature oracle "
     "`sigcheck` are universally quantified; hypotheses stated in the theorems: ripemd160 digests are "
